@@ -9,7 +9,7 @@ use syn::{parse_quote, Expr};
 #[derive(Default)]
 pub struct Rules { pub outlined: BTreeMap<String, usize>, pub dropped: BTreeMap<String, usize>, pub renamed: BTreeMap<String, usize> }
 
-const DROP_DERIVES: &[&str] = &["Serialize", "Deserialize", "Derivative", "EnumString", "EnumVariantNames", "Display"];
+const DROP_DERIVES: &[&str] = &["Serialize", "Deserialize", "Derivative", "EnumString", "EnumVariantNames", "Display", "Debug"];
 
 pub fn clean_attrs(attrs: &mut Vec<syn::Attribute>, rules: &mut Rules) {
     let mut out = vec![];
@@ -39,7 +39,7 @@ fn refcell_type(t: &mut syn::Type, rules: &mut Rules) {
         if let syn::PathArguments::AngleBracketed(ab) = &seg.arguments { if let Some(syn::GenericArgument::Type(inner)) = ab.args.first() { let inner = inner.clone(); *t = inner; *rules.dropped.entry("R:type".into()).or_default() += 1; } } } } }
 }
 
-pub struct BodyRules<'a> { pub rules: &'a mut Rules, pub unit: &'a Unit }
+pub struct BodyRules<'a> { pub rules: &'a mut Rules, pub unit: &'a Unit, pub features: &'a [String], pub tyname: Option<String> }
 impl<'a> BodyRules<'a> {
     fn is_cell(&self, e: &Expr) -> bool {
         let s = norm(&e.to_token_stream().to_string());
@@ -58,6 +58,16 @@ impl<'a> VisitMut for BodyRules<'a> {
             if (name == "borrow" || name == "borrow_mut" || name == "get_mut") && m.args.is_empty() && self.is_cell(&m.receiver) {
                 *self.rules.dropped.entry("R:borrow".into()).or_default() += 1;
                 repl = Some((*m.receiver).clone());
+            }
+            // rule G: ghost token argument on channel operations
+            for (feat, meth, extra) in &self.unit.ghost_args {
+                if (feat == "-" || self.features.contains(feat)) && name == *meth && m.args.len() <= 1 {
+                    let mut m2 = m.clone();
+                    let e: Expr = syn::parse_str(extra).expect("ghost-arg");
+                    m2.args.push(e);
+                    *self.rules.dropped.entry("G:arg".into()).or_default() += 1;
+                    repl = Some(Expr::MethodCall(m2));
+                }
             }
             // O: a.union(&b).copied().collect()
             if name == "collect" {
@@ -84,6 +94,20 @@ impl<'a> VisitMut for BodyRules<'a> {
             if f == "RefCell::new" && c.args.len() == 1 { repl = Some(c.args[0].clone()); *self.rules.dropped.entry("R:RefCell::new".into()).or_default() += 1; }
         }
         if let Some(r) = repl { *e = r; }
+    }
+    fn visit_expr_struct_mut(&mut self, s: &mut syn::ExprStruct) {
+        visit_mut::visit_expr_struct_mut(self, s);
+        // rule G: ghost token fields in struct literals
+        let last = s.path.segments.last().map(|x| x.ident.to_string()).unwrap_or_default();
+        for (st, feat, name, _ty, init) in &self.unit.ghost_fields {
+            if !(feat == "-" || self.features.contains(feat)) { continue; }
+            if &last == st || (last == "Self" && self.tyname.as_deref() == Some(st.as_str())) {
+                let n = syn::Ident::new(name, proc_macro2::Span::call_site());
+                let e: Expr = syn::parse_str(init).expect("ghost-field init");
+                s.fields.push(parse_quote!(#n: #e));
+                *self.rules.dropped.entry("G:field-init".into()).or_default() += 1;
+            }
+        }
     }
     fn visit_local_mut(&mut self, l: &mut syn::Local) {
         visit_mut::visit_local_mut(self, l);
